@@ -55,6 +55,7 @@ type Solver struct {
 	TimeoutMs int
 	cmd       *exec.Cmd
 	in        io.WriteCloser
+	w         *bufio.Writer
 	out       *bufio.Reader
 	Log       io.Writer
 	dead      bool
@@ -75,7 +76,7 @@ func Start(kind string, timeoutMs int) (*Solver, error) {
 	if err := cmd.Start(); err != nil {
 		return nil, err
 	}
-	s := &Solver{Kind: kind, TimeoutMs: timeoutMs, cmd: cmd, in: in, out: bufio.NewReaderSize(out, 1<<16)}
+	s := &Solver{Kind: kind, TimeoutMs: timeoutMs, cmd: cmd, in: in, w: bufio.NewWriterSize(in, 1<<16), out: bufio.NewReaderSize(out, 1<<16)}
 	s.send("(set-option :produce-models true)\n(set-logic ALL)\n")
 	return s, nil
 }
@@ -85,6 +86,7 @@ func (s *Solver) Close() {
 		return
 	}
 	s.dead = true
+	s.w.Flush()
 	s.in.Close()
 	done := make(chan struct{})
 	go func() { s.cmd.Wait(); close(done) }()
@@ -99,13 +101,16 @@ func (s *Solver) send(x string) {
 	if s.Log != nil {
 		io.WriteString(s.Log, x)
 	}
-	if _, err := io.WriteString(s.in, x); err != nil {
+	if _, err := s.w.WriteString(x); err != nil {
 		panic(fmt.Sprintf("solver %s: write: %v", s.Kind, err))
 	}
 }
 
 // readSexp reads one complete s-expression or atom line from the solver.
 func (s *Solver) readSexp() string {
+	if err := s.w.Flush(); err != nil {
+		panic(fmt.Sprintf("solver %s: flush: %v", s.Kind, err))
+	}
 	var sb strings.Builder
 	depth := 0
 	for {
